@@ -384,6 +384,21 @@ func escRun(npay int, op int) {
 		} else {
 			verif_Assert(e.bank.module.Equal(preModule), "C01 failed deposit moves no coins")
 		}
+		// a deposit may or may not bring the account up to date first; either way what the account
+		// has transferred equals what its payees were credited
+		if a0, ok := pre.accs[escA]; ok {
+			a1 := post.accs[escA]
+			moved := a1.Transferred.Amount.Sub(a0.Transferred.Amount)
+			credited := sdk.ZeroInt()
+			for _, pid := range []string{"p1", "p2", "p3"} {
+				key := escPayKey(escA, pid)
+				if p0, ok := pre.pays[key]; ok {
+					p1 := post.pays[key]
+					credited = credited.Add(p1.Balance.Amount.Add(p1.Withdrawn.Amount)).Sub(p0.Balance.Amount.Add(p0.Withdrawn.Amount))
+				}
+			}
+			verif_Assert(moved.Equal(credited), "C02 amount transferred by the account equals the total credited to its payees")
+		}
 		escCheck(e, pre, post, preModule, focus)
 		return
 	case 2:
